@@ -17,17 +17,23 @@ ValidBase(b) == LET ri == ReadF(b.c, b.L, "ideal")  rr == ReadF(b.c, b.L, "real"
 
 FaultCase(k, b, j, ft) ==
   LET L2 == ApplyFault(b.L, ft)
-      cl == Classify(b.c, L2)
+      cl == Classify(b.c, L2, ft.kind # "trunc")      \* a truncated file does not end with a newline
   IN [base |-> k, j |-> j, c |-> b.c, kind |-> ft.kind, k |-> ft.k, t |-> ft.t, lines |-> L2,
-      verdict |-> cl.verdict, io |-> cl.io, iat |-> cl.iat, rok |-> cl.rok, rat |-> cl.rat,
+      verdict |-> cl.verdict, iat |-> cl.iat, rok |-> cl.rok, rat |-> cl.rat,
       rev |-> SetToSeq(cl.rev), unsafe |-> SetToSeq(cl.unsafe), diverge |-> cl.diverge]
 
+\* The classification is evaluated in a state constraint (one evaluation per faulty file; LET definitions are
+\* cached there, which they are not inside an action).
 Init == n \in 1..Len(Picks) /\ f = 0
 Next == /\ f = 0
+        /\ n' = n
         /\ LET b == Base(n) IN
-           IF ~ValidBase(b) THEN f' = -1 /\ n' = n /\ PrintT(ToJson([base |-> n, c |-> b.c, kind |-> "invalid-base"]))
-           ELSE LET fl == FaultList(b.L, b.c) IN
-                \/ f' = -2 /\ n' = n /\ PrintT(ToJson([base |-> n, c |-> b.c, kind |-> "base", lines |-> b.L, o |-> b.o, nfaults |-> Len(fl)]))
-                \/ \E j \in DOMAIN fl : f' = j /\ n' = n /\ PrintT(ToJson(FaultCase(n, b, j, fl[j])))
+           IF ~ValidBase(b) THEN f' = -1
+           ELSE f' \in ({-2} \cup (1..Len(FaultList(b.L, b.c))))
+Emit == \/ f = 0
+        \/ LET b == Base(n) IN
+           CASE f = -1 -> PrintT(ToJson([base |-> n, c |-> b.c, kind |-> "invalid-base"]))
+             [] f = -2 -> PrintT(ToJson([base |-> n, c |-> b.c, kind |-> "base", lines |-> b.L, o |-> b.o, nfaults |-> Len(FaultList(b.L, b.c))]))
+             [] OTHER  -> PrintT(ToJson(FaultCase(n, b, f, FaultList(b.L, b.c)[f])))
 Spec == Init /\ [][Next]_vars
 =============================================================================
